@@ -368,10 +368,57 @@ def election_scenario(rng, with_fork=True, bpcount_change=True):
     return {"election": True, "n": n, "nodes": 1, "self": [rng.randrange(0, n)], "ops": ops}
 
 
+def election_boundary_reorg(rng):
+    """Reorganisation that rolls back across an election boundary at which the producer count
+    changes, and ends a few blocks after it: the rebuilt and the new confirms elements carry the
+    confirmsRequired of the producer set in force on the new branch at their height."""
+    n = 3
+    ops = [["T", 1, [0, 1, 2, 3, 4, 5], 3], ["T", 2, [5, 4, 3, 2, 1, 0], 5], ["T", 3, [2, 3, 4, 5, 0, 1], 5]]
+    blocks = {0: (None, 0)}
+    lpb = {}
+    nid = [1]
+
+    def mk(parent, prods, sid):
+        no = blocks[parent][1] + 1
+        bp = rng.choice(prods)
+        i = nid[0]
+        nid[0] += 1
+        blocks[i] = (parent, no)
+        ops.append(["B", i, parent, bp, max(1, no - lpb.get(bp, 0)), sid])
+        lpb[bp] = no
+        ops.append(["D", 0, i])
+        return i
+    boundary = rng.choice([300, 400])
+    tip = 0
+    chain = [0]
+    change = rng.randrange(20, 180)
+    old_len = boundary + rng.randrange(1, 6)
+    for k in range(1, old_len + 1):
+        sid = 1 if k < change else 2
+        if k <= 300:
+            prods = [0, 1, 2]
+        else:
+            prods = [5, 4, 3, 2, 1]
+        tip = mk(tip, prods, sid)
+        chain.append(tip)
+    ops.append(["S", 0])
+    root = chain[boundary - rng.randrange(1, 6)]
+    t2 = root
+    while blocks[t2][1] < old_len + rng.randrange(1, 4):
+        no = blocks[t2][1] + 1
+        prods = [0, 1, 2] if no <= 300 else [5, 4, 3, 2, 1]
+        t2 = mk(t2, prods, 3)
+    ops.append(["S", 0])
+    for _ in range(3):
+        t2 = mk(t2, [5, 4, 3, 2, 1], 3)
+    return {"election": True, "n": n, "nodes": 1, "self": [0], "ops": ops}
+
+
 def generate_election(rng, quick):
-    out = [election_scenario(rng, with_fork=False, bpcount_change=False), election_scenario(rng), election_scenario(rng)]
+    out = [election_scenario(rng, with_fork=False, bpcount_change=False), election_scenario(rng), election_scenario(rng),
+           election_boundary_reorg(rng)]
     if not quick:
-        out += [election_scenario(rng) for _ in range(25)]
+        out += [election_scenario(rng) for _ in range(20)] + [election_boundary_reorg(rng) for _ in range(10)]
     return out
 
 
